@@ -55,6 +55,8 @@ class TableCacheWorld:
                             overlaps=list(range(len(self.overlap_groups))))
         self.overlap_base = r.get("overlap_digests") or []
         self.seq_base = {}
+        self.pkg_files0 = set(os.listdir(self.pkg))
+        self.tree_files0 = set(os.listdir(self.tree))
         if r.get("import_exc") or r.get("ctor_exc") or r.get("rewritten"):
             raise RuntimeError("baseline incarnation under a valid cache misbehaved: %s" % {k: r.get(k) for k in ("import_exc", "ctor_exc", "rewritten")})
         self.baseline = r["digests"]
@@ -148,6 +150,22 @@ class TableCacheWorld:
             return {"import_exc": "incarnation died (rc=%s)" % r.returncode, "digests": []}
         return json.loads(line)
 
+    def _reset_durable_state(self):
+        """A run starts from the pristine package directory: whatever earlier runs dropped next to the cache file (lock
+        files, temp files) is removed.  WITHIN a run such droppings survive from one incarnation to the next - that is the
+        durable state a restart meets."""
+        for d, keep in ((self.pkg, self.pkg_files0), (self.tree, self.tree_files0)):
+            for f in set(os.listdir(d)) - keep:
+                p = os.path.join(d, f)
+                if os.path.isdir(p) and not os.path.islink(p):
+                    shutil.rmtree(p, ignore_errors=True)
+                else:
+                    try:
+                        os.remove(p)
+                    except OSError:
+                        pass
+        self.set_state("valid")
+
     def _cache_valid_now(self):
         try:
             ns = {}
@@ -189,6 +207,7 @@ class TableCacheWorld:
             if r["violating"]:
                 return r["violating"][0]
             return {"status": "ok", "violations": [], "trace": trace, "stats": r["stats"]}
+        self._reset_durable_state()
         log = core.EventLog(keep=keep_events)
         log.add("trace", decided=True, prop="C20", seed=trace.get("seed"), swarm=trace.get("swarm"),
                 incarnations=trace["incarnations"])
@@ -325,6 +344,7 @@ class TableCacheWorld:
             out["stats"]["subclass_unavailable"] += 1
             out["stats"] = dict(out["stats"])
             return out
+        self._reset_durable_state()
         idxs = [i for i in self.small if i % 4 == 0][:12]
         user_cache = os.path.join(self.tree, "parsetab.py")      # the subclass's own table file (next to its defining module)
         if os.path.exists(user_cache):
